@@ -29,7 +29,17 @@ ASSUMPTIONS = ["documented semantics of fit / partial_fit / use_base_clf / set_b
                "the wrapper's constructor requires a numeric missing_label compatible with y (NaN / float labels used)"]
 REQUIRED_MONITORS = ["C19.multiset-replay-checker", "C19.speed-up-equivalence"]
 CL = [0, 1, 2]
-KINDS = ["pwc", "pwc_knn", "pwc_speed", "pwc_speed_poly", "pwc_speed_knn", "pwc_speed_mean", "nb", "tree", "nb_pf", "sgd_pf", "mixture"]
+KINDS = ["pwc", "pwc_knn", "pwc_speed", "pwc_speed_poly", "pwc_speed_knn", "pwc_speed_mean", "nb", "tree", "nb_pf", "sgd_pf", "mixture", "nb_extra_param", "knn"]
+
+
+class ExtraParamNB(GaussianNB):
+    """An estimator whose fit has a further parameter before the weights (like coef_init of the linear models): weights that are
+    passed by position end up there."""
+
+    def fit(self, X, y, prior_init=None, sample_weight=None):
+        if prior_init is not None:
+            raise ValueError("prior_init is not supported by this training set")
+        return super().fit(X, y, sample_weight=sample_weight)
 
 
 def _base(kind):
@@ -49,6 +59,11 @@ def _base(kind):
         return SklearnClassifier(GaussianNB(var_smoothing=1e-3), classes=CL, random_state=0)
     if kind == "tree":
         return SklearnClassifier(DecisionTreeClassifier(random_state=0), classes=CL, random_state=0)
+    if kind == "knn":     # an estimator whose fit takes nothing but X and y
+        from sklearn.neighbors import KNeighborsClassifier
+        return SklearnClassifier(KNeighborsClassifier(n_neighbors=1), classes=CL, random_state=0)
+    if kind == "nb_extra_param":
+        return SklearnClassifier(ExtraParamNB(var_smoothing=1e-3), classes=CL, random_state=0)
     if kind == "sgd_pf":
         return SklearnClassifier(SGDClassifier(loss="log_loss", random_state=0, learning_rate="constant", eta0=0.1), classes=CL, random_state=0)
     return MixtureModelClassifier(mixture_model=BayesianGaussianMixture(n_components=2, reg_covar=1e-2, random_state=0),
@@ -62,7 +77,7 @@ def gen_cases(tier, seed):
         for i in range(reps):
             s = stable_hash(seed, "C19", kind, i)
             cases.append({"id": "%s-%04d" % (kind, i), "family": "ops", "kind": kind, "seed": s, "eus": bool(i % 2),
-                          "weights": bool((i // 2) % 2)})
+                          "weights": bool((i // 2) % 2) and kind != "knn"})      # (nearest neighbours take no weights)
     for i in range({"quick": 24, "thorough": 800}[tier]):
         cases.append({"id": "eer-%04d" % i, "family": "eer", "kind": ["mc", "voi"][i % 2], "seed": stable_hash(seed, "C19", "eer", i),
                       "eus": False, "weights": bool((i // 2) % 2)})
@@ -77,7 +92,7 @@ def _fit_ref(base, X, ms, with_w):
     idx = np.array([t[0] for t in ms], int)
     yy = np.array([t[1] for t in ms], float)
     if with_w:
-        return clone(base).fit(X[idx], yy, np.array([t[2] for t in ms], float))
+        return clone(base).fit(X[idx], yy, sample_weight=np.array([t[2] for t in ms], float))
     return clone(base).fit(X[idx], yy)
 
 
